@@ -149,6 +149,119 @@ def _log2(x):
     return r
 
 
+class InstanceError(Exception):
+    """Raised when the real code cannot be built/driven the way it is on the unchanged tree; carries the
+    instance name and the input at hand so the runner can report it."""
+
+
+class _InstBase:
+    """Common robustness plumbing: every exception while driving the real code is re-raised with the instance name
+    and the letter at hand; combinational loops and runaway instances end as exceptions, not as endless runs."""
+    budget_s = 1500.0
+    _t_end = float("inf")         # armed by build_guarded
+
+    def _arm(self):
+        import time
+        self._t_end = time.time() + self.budget_s
+        n = self.netlist
+        ev = n.ev
+
+        def bounded_propagate():
+            modified = ev.commit()
+            k = 0
+            while modified:
+                k += 1
+                if k > 20000:
+                    raise InstanceError("instance %s: combinational logic does not settle" % self.name)
+                ev.execute(n.comb)
+                modified = ev.commit()
+        n._propagate = bounded_propagate
+
+    def apply(self, letter):
+        import time
+        if time.time() > self._t_end:
+            raise InstanceError("instance %s exceeded its time budget of %ds (state explosion or hang); last input %r"
+                                % (self.name, self.budget_s, tuple(letter)))
+        try:
+            self._apply(letter)
+        except InstanceError:
+            raise
+        except Exception as e:
+            raise InstanceError("instance %s: driving the real code raised %r on input %r" % (self.name, e, tuple(letter))) from e
+
+    def sample(self):
+        try:
+            return self._sample()
+        except Exception as e:
+            raise InstanceError("instance %s: observing the real code raised %r" % (self.name, e)) from e
+
+
+def build_guarded(name, ctor, *a, **kw):
+    """Build an instance; constructor failures (assertion, missing attribute, alarm after 120 s) carry the name."""
+    import signal
+
+    def on_alarm(sig, frm):
+        raise InstanceError("instance %s: elaboration did not finish within 120 s" % name)
+    old = None
+    try:
+        old = signal.signal(signal.SIGALRM, on_alarm)
+        signal.alarm(120)
+    except ValueError:
+        old = None
+    try:
+        inst = ctor(name, *a, **kw)
+        inst._arm()
+        return inst
+    except InstanceError:
+        raise
+    except Exception as e:
+        raise InstanceError("instance %s: building the real code raised %r" % (name, e)) from e
+    finally:
+        if old is not None:
+            signal.alarm(0)
+            signal.signal(signal.SIGALRM, old)
+
+
+def ref_page_bits(width, depth, bw, paging):
+    """Width of the page register a memory window needs (from the parameters: number of CSR pages it spans)."""
+    words = depth * (-(-width // bw))
+    pages = -(-words // (paging // 4))
+    return (pages - 1).bit_length() if pages > 1 else 0
+
+
+def ref_sort(regs):
+    """Placement of gathered registers as documented: fixed ones at their `n`, the others in the first free
+    slots in order, free slots filled with 1-bit `reserved` CSRs.  (Callers avoid the n == length corner.)"""
+    L = len(regs)
+    for r in regs:
+        if r.n is not None and r.n > L:
+            L = r.n + 1
+    slots = [None] * L
+    for r in regs:
+        if r.n is not None:
+            assert slots[r.n] is None
+            slots[r.n] = r
+    free = [i for i in range(L) if slots[i] is None]
+    for r in regs:
+        if r.n is None:
+            slots[free.pop(0)] = r
+    return [x if x is not None else Reg(RAW, 1, name="reserved%d" % i) for i, x in enumerate(slots)]
+
+
+def alias_addresses(base_adr, nwords, pbits, aw):
+    """Addresses that must NOT reach the bank's registers although they differ from a populated address in a single
+    bit (in-page bits: unpopulated words; page bits: other banks), plus every in-page address of small pages."""
+    out = []
+    for i in sorted({0, max(1, nwords) - 1}):
+        for b in range(aw if i == 0 else pbits):      # page-number bits: from word 0 only
+            a = (base_adr + i) ^ (1 << b)
+            if not (base_adr <= a < base_adr + nwords):
+                out.append(a)
+    if pbits <= 4:
+        out += [base_adr + a for a in range(nwords, 1 << pbits)]
+    return sorted(set(out))
+
+
 class RegPorts:
     """Drive/observe one real register."""
 
@@ -185,31 +298,39 @@ class RegPorts:
 
 def dev_choices(reg, values):
     """Non-default device-side inputs `(we, dat)` of one register for the mode-A alphabet."""
+    # values are NOT masked to the register size: the netlist truncates to the width the implementation gave the
+    # signal, the model to the declared size -- a mis-sized signal shows up as a difference
     mask = (1 << reg.eff_size()) - 1
     if reg.kind == STORAGE:
-        return [(1, v & mask) for v in values] if reg.wfd else []
-    return [(0, v & mask) for v in values if v & mask]
+        return [(1, v) for v in values] if reg.wfd else []
+    return [(0, v) for v in values if v & mask]
 
 
-class BankInst:
+class BankInst(_InstBase):
     """One real CSRBank.  Letter = (adr, re, we, dat_w, dev_we_0, dev_dat_0, dev_we_1, dev_dat_1, ...).
     Outputs = [dat_r] + per register [val, re, we, r] + storage field signals."""
 
     def __init__(self, name, regs, bw=8, ordering="big", paging=0x800, address=0, aw=14,
                  data_values=(0xA5A5A5A5A5, 0x5A5A5A5A5A), dev_values=(0x3C3C3C3C3C, 0xFFFFFFFFFF),
-                 extra_adrs=None, monitor_atomic=True):
+                 extra_adrs=None, monitor_atomic=True, default_bus=False, alias=True):
         self.name = name
         self.regs = regs
         self.bw, self.ordering, self.paging, self.address, self.aw = bw, ordering, paging, address, aw
         self.pbits = _log2(paging // 4)
         self.objs = [build_reg(r, r.name or "r%d" % k) for k, r in enumerate(regs)]
-        self.bus = _csr_bus.Interface(data_width=bw, address_width=aw)
-        self.bank = _csr_bus.CSRBank(self.objs, address=address, bus=self.bus, paging=paging, ordering=ordering)
+        if default_bus:
+            # the constructor's own default paths: bus=None -> Interface(), paging/ordering defaults
+            assert (bw, aw, paging, ordering) == (8, 14, 0x800, "big")
+            self.bank = _csr_bus.CSRBank(self.objs, address) if address else _csr_bus.CSRBank(self.objs)
+            self.bus = self.bank.bus
+        else:
+            self.bus = _csr_bus.Interface(data_width=bw, address_width=aw)
+            self.bank = _csr_bus.CSRBank(self.objs, address=address, bus=self.bus, paging=paging, ordering=ordering)
         self.netlist = Netlist(self.bank)
         self.ports = [RegPorts(r, o) for r, o in zip(regs, self.objs)]
         self.lean_open = "bank %d %d %d %d %s" % (bw, 0 if ordering == "big" else 1, self.pbits, address,
                                                    lean_regs(regs))
-        self.nwords = len(self.bank.simple_csrs)
+        self.nwords = len(ref_layout(regs, bw, ordering))      # from the description, not from the bank built
         self.monitor_atomic = monitor_atomic
         # qualifiers: `r` of a raw CSR is only meaningful under its `re`
         self.qual = [None]
@@ -226,6 +347,7 @@ class BankInst:
         adrs = [base_adr + a for a in range(min(self.nwords + 1, 1 << self.pbits))]
         other = ((address ^ 1) << self.pbits)          # same word index 0 in another bank
         adrs.append(other)
+        self.aliases = [a for a in alias_addresses(base_adr, self.nwords, self.pbits, aw) if a not in adrs]
         if extra_adrs:
             adrs += list(extra_adrs)
         self.adrs = adrs
@@ -236,6 +358,11 @@ class BankInst:
             for d in data_values:
                 bus_letters.append((a, 0, 1, d & dmask))
         bus_letters.append((base_adr, 1, 1, data_values[0] & dmask))     # re and we together
+        alias_letters = []
+        if alias:
+            for a in self.aliases:                                       # single-bit aliases: write and read only
+                alias_letters.append((a, 0, 1, data_values[-1] & dmask))
+                alias_letters.append((a, 1, 0, 0))
         nodev = [(0, 0)] * len(regs)
         dev_letters = [tuple(nodev)]
         for k, r in enumerate(regs):
@@ -247,10 +374,11 @@ class BankInst:
         if tuple(allact) not in dev_letters:
             dev_letters.append(tuple(allact))
         self.alphabet = [b + tuple(itertools.chain(*d)) for b in bus_letters for d in dev_letters]
+        self.alphabet += [b + tuple(itertools.chain(*nodev)) for b in alias_letters]
         self.inputs = None
         self.outputs = None
 
-    def apply(self, letter):
+    def _apply(self, letter):
         n = self.netlist
         adr, re, we, dat = letter[:4]
         n.set(self.bus.adr, adr); n.set(self.bus.re, re); n.set(self.bus.we, we); n.set(self.bus.dat_w, dat)
@@ -258,7 +386,7 @@ class BankInst:
             p.drive(n, letter[4 + 2 * k], letter[5 + 2 * k])
         n.settle()
 
-    def sample(self):
+    def _sample(self):
         n = self.netlist
         outs = [n.getu(self.bus.dat_r)]
         for p in self.ports:
@@ -276,8 +404,10 @@ class BankInst:
         dmask = (1 << self.bw) - 1
         x = rng.random()
         base_adr = self.address << self.pbits
-        if x < 0.70:
+        if x < 0.65:
             adr = base_adr + rng.randrange(max(1, self.nwords))
+        elif x < 0.75:
+            adr = (base_adr + rng.randrange(max(1, self.nwords))) ^ (1 << rng.randrange(self.aw))     # single-bit alias
         elif x < 0.80:
             adr = base_adr + rng.randrange(1 << self.pbits)
         elif x < 0.90:
@@ -291,10 +421,11 @@ class BankInst:
         letter = [adr, re, we, dat]
         for r in self.regs:
             m = (1 << r.eff_size()) - 1
+            wide = r.eff_size() + (3 if rng.random() < 0.2 else 0)      # sometimes wider than declared
             if r.kind == STORAGE:
-                letter += [1 if (r.wfd and rng.random() < 0.15) else 0, rng.getrandbits(r.eff_size()) if r.wfd else 0]
+                letter += [1 if (r.wfd and rng.random() < 0.15) else 0, rng.getrandbits(wide) if r.wfd else 0]
             else:
-                letter += [0, rng.choice((0, m, rng.getrandbits(r.eff_size())))]
+                letter += [0, rng.choice((0, m, rng.getrandbits(wide)))]
         return tuple(letter)
 
     def monitor(self):
@@ -441,22 +572,41 @@ def lean_sram(bw, pbits, address, width, depth, read_only, init):
                                         " ".join(map(str, init)))
 
 
-class SramInst:
+class SramInst(_InstBase):
     """One real `csr_bus.SRAM`, alone.  Letter = (adr, re, we, dat_w, page); outputs = [dat_r].
-    The page register (if any) is not part of a bank here; its `storage` is driven as an input."""
+    The page register (if any) is not part of a bank here; its `storage` is driven as an input.
+    Every range (addresses, page values, populated words) comes from the constructor parameters."""
 
     def __init__(self, name, width=8, depth=4, bw=8, paging=0x800, address=1, aw=14, read_only=False, init=None,
-                 data_values=(0xA5A5A5A5, 0x5A5A5A5A), nadr=None):
+                 data_values=(0xA5A5A5A5, 0x5A5A5A5A), nadr=None, via="explicit"):
         from migen import Memory
         self.name = name
         self.bw, self.aw, self.address = bw, aw, address
         self.pbits = _log2(paging // 4)
         self.mem = Memory(width, depth, init=init, name="mem")
-        self.bus = _csr_bus.Interface(data_width=bw, address_width=aw)
-        self.sram = _csr_bus.SRAM(self.mem, address, read_only=read_only, bus=self.bus, paging=paging)
+        if via == "bus_read_only":
+            # read_only left to the constructor's default path: taken from the memory's `bus_read_only` attribute
+            self.mem.bus_read_only = read_only
+            self.bus = _csr_bus.Interface(data_width=bw, address_width=aw)
+            self.sram = _csr_bus.SRAM(self.mem, address, bus=self.bus, paging=paging)
+        elif via == "default_bus":
+            assert (bw, aw, paging) == (8, 14, 0x800)
+            self.sram = _csr_bus.SRAM(self.mem, address, read_only=read_only)
+            self.bus = self.sram.bus
+        elif via == "size":
+            # `mem_or_size` given as a size in bytes: the constructor creates the memory itself
+            assert width == bw
+            self.sram = _csr_bus.SRAM(depth * (bw // 8), address, read_only=read_only, init=init,
+                                      bus=_csr_bus.Interface(data_width=bw, address_width=aw), paging=paging)
+            self.bus = self.sram.bus
+        else:
+            self.bus = _csr_bus.Interface(data_width=bw, address_width=aw)
+            self.sram = _csr_bus.SRAM(self.mem, address, read_only=read_only, bus=self.bus, paging=paging)
         self.netlist = Netlist(self.sram)
+        self.page_bits = ref_page_bits(width, depth, bw, paging)
         self.page = self.sram._page.storage if self.sram._page is not None else None
-        self.page_bits = len(self.page) if self.page is not None else 0
+        if self.page_bits and self.page is None:
+            raise InstanceError("instance %s: the memory window needs %d page bits but has no page register" % (name, self.page_bits))
         self.lean_open = "sram " + lean_sram(bw, self.pbits, address, width, depth, read_only, init)
         self.qual = [None]
         cpm = -(-width // bw)
@@ -465,6 +615,8 @@ class SramInst:
         base = address << self.pbits
         nadr = nadr or min(self.nwords, 1 << self.pbits)
         adrs = [base + a for a in range(nadr)] + [((address ^ 1) << self.pbits)]
+        # single-bit aliases of the window's page number (other pages must neither read nor write the memory)
+        adrs += [a for a in (base ^ (1 << b) for b in range(self.pbits, aw)) if a not in adrs][:3]
         letters = []
         for pv in range(1 << self.page_bits):
             for a in adrs:
@@ -476,15 +628,17 @@ class SramInst:
         self.depth, self.width, self.cpm, self.read_only = depth, width, cpm, read_only
         self.init = list(init or [])
 
-    def apply(self, letter):
+    def _apply(self, letter):
         n = self.netlist
         adr, re, we, dat, pv = letter
         n.set(self.bus.adr, adr); n.set(self.bus.re, re); n.set(self.bus.we, we); n.set(self.bus.dat_w, dat)
         if self.page is not None:
             n.set(self.page, pv)
+        elif pv:
+            raise InstanceError("instance %s: page value %d but no page register" % (self.name, pv))
         n.settle()
 
-    def sample(self):
+    def _sample(self):
         return [self.netlist.getu(self.bus.dat_r)]
 
     def nontrivial(self, letter, outs):
@@ -495,6 +649,8 @@ class SramInst:
         x = rng.random()
         if x < 0.8:
             adr = base + rng.randrange(min(self.nwords, 1 << self.pbits))
+        elif x < 0.85:
+            adr = (base + rng.randrange(min(self.nwords, 1 << self.pbits))) ^ (1 << rng.randrange(self.pbits, self.aw))
         elif x < 0.9:
             adr = base + rng.randrange(1 << self.pbits)
         else:
@@ -577,78 +733,59 @@ class _Periph:
         return list(self._mems)
 
 
-class ArrayInst:
-    """Real `CSRBankArray` over a source object with several CSR-bearing attributes, connected to one master
-    through `Interconnect` or to several through `InterconnectShared`.
-      periphs: list of (attr name, [Reg], [(width, depth, read_only, init)])   (attribute names sort = scan order)
-      address_map: attr name -> bank number, (attr name, k-th memory) -> window number
+def _make_auto_periph(pname, regs, mems, child_split):
+    """The same peripheral written the way cores are: a Module with AutoCSR whose registers and memories are
+    attributes (found by `get_csrs(sort=True)` / `get_memories()`); the last `child_split` registers live in a child
+    module (prefix path).  Returns (module, [csr objects in creation order], [Memory objects])."""
+    from migen import Memory
+
+    class P(Module, _csr.AutoCSR):
+        pass
+    top = P()
+    child = P() if child_split else None
+    objs = []
+    ncsr = len(regs)
+    for k, r in enumerate(regs):
+        in_child = child is not None and k >= ncsr - child_split
+        # attribute names are chosen anti-alphabetically: placement must follow creation (DUID) order, not names
+        attr = "z%02d" % (ncsr - k)
+        o = build_reg(r, r.name or "%s_%s" % (pname, attr))
+        setattr(child if in_child else top, attr, o)
+        objs.append(o)
+    if child is not None:
+        top.sub = child
+        top.submodules += child
+    mobjs = []
+    for mi, (w, d, ro, init) in enumerate(mems):
+        m = Memory(w, d, init=init, name="%s_mem%d" % (pname, mi))
+        setattr(top, "mem%d" % mi, m)
+        mobjs.append(m)
+    return top, objs, mobjs
+
+
+class _ArrayBase(_InstBase):
+    """Several banks / memory windows behind one bus.  Subclasses provide:
+       self.drive_buses : interfaces the harness drives (masters, or every slave bus when the harness plays the
+                          interconnect), grouped per master: list of lists
+       self.read_buses  : interfaces whose dat_r the masters see (OR-ed per group)
+       self.bank_desc   : [(bank number, [Reg])] in bank order              -- from the parameters
+       self.win_desc    : [(window number, width, depth, read_only, init, page (bank idx, reg idx) | None)]
+       self.ports       : RegPorts of every register, bank order
     Letter = (adr, re, we, dat_w) per master + (dev_we, dev_dat) per register of every bank (bank order).
     Outputs = [dat_r] + per register [val, re, we, r] + storage fields."""
 
-    def __init__(self, name, periphs, bank_addr, mem_addr, bw=8, ordering="big", paging=0x800, aw=14, nmasters=1,
-                 data_values=(0xA5A5A5A5A5, 0x5A5A5A5A5A), dev_values=(0x3C3C3C3C3C,), m1_letters=None):
-        from migen import Memory
-        self.name, self.bw, self.aw, self.nmasters = name, bw, aw, nmasters
-        self.ordering = ordering
-        self.pbits = _log2(paging // 4)
-
-        class Src:
-            pass
-        src = Src()
-        self.objs = {}
-        mems_by_id = {}
-        for pname, regs, mems in periphs:
-            objs = [build_reg(r, r.name or "%s_r%d" % (pname, k)) for k, r in enumerate(regs)]
-            mobjs = []
-            for mi, (w, d, ro, init) in enumerate(mems):
-                m = Memory(w, d, init=init, name="%s_mem%d" % (pname, mi))
-                mems_by_id[id(m)] = (pname, mi)
-                mobjs.append((ro, m) if ro else m)
-            setattr(src, pname, _Periph(objs, mobjs))
-            self.objs[pname] = objs
-
-        def address_map(nm, memory):
-            if memory is None:
-                return bank_addr[nm]
-            return mem_addr[mems_by_id[id(memory)]]
-        self.array = _csr_bus.CSRBankArray(src, address_map, data_width=bw, address_width=aw, paging=paging,
-                                           ordering=ordering)
-        self.masters = [_csr_bus.Interface(data_width=bw, address_width=aw) for _ in range(nmasters)]
-        top = Module()
-        top.submodules += self.array
-        if nmasters == 1:
-            top.submodules += _csr_bus.Interconnect(self.masters[0], self.array.get_buses())
-        else:
-            top.submodules += _csr_bus.InterconnectShared(self.masters, self.array.get_buses())
-        self.netlist = Netlist(top)
-        # ---- describe what was built (from the real array, in its own order)
-        self.bank_regs = []
-        self.ports = []
-        toks = [nmasters, len(self.array.banks)]
-        page_loc = {}
-        for bi, (nm, csrs, mapaddr, rmap) in enumerate(self.array.banks):
-            regs = [spec_of(c) for c in csrs]
-            self.bank_regs.append(regs)
-            for ri, (r, c) in enumerate(zip(regs, csrs)):
-                self.ports.append(RegPorts(r, c))
-                page_loc[id(c)] = (bi, ri)
-            toks.append("%d %d %d %d %s" % (bw, 0 if ordering == "big" else 1, self.pbits, mapaddr, lean_regs(regs)))
-        toks.append(len(self.array.srams))
-        self.windows = []
-        for (nm, memory, mapaddr, mmap) in self.array.srams:
-            ro = not hasattr(mmap, "specials") and False
-            port = list(memory.ports)[0]
-            ro = port.we is None
-            init = list(memory.init or [])
-            toks.append(lean_sram(bw, self.pbits, mapaddr, memory.width, memory.depth, ro, init))
-            if mmap._page is not None:
-                bi, ri = page_loc[id(mmap._page)]
-                toks.append("1 %d %d" % (bi, ri))
-            else:
-                toks.append("0 0 0")
-            self.windows.append((mapaddr, memory.depth * (-(-memory.width // bw))))
+    def _describe(self, data_values, dev_values, m1_letters=None, max_adrs=None):
+        bw, ordering = self.bw, self.ordering
+        toks = [self.nmasters, len(self.bank_desc)]
+        for (addr, regs) in self.bank_desc:
+            toks.append("%d %d %d %d %s" % (bw, 0 if ordering == "big" else 1, self.pbits, addr, lean_regs(regs)))
+        toks.append(len(self.win_desc))
+        for (addr, w, d, ro, init, page) in self.win_desc:
+            toks.append(lean_sram(bw, self.pbits, addr, w, d, ro, init))
+            toks.append("1 %d %d" % page if page is not None else "0 0 0")
         self.lean_open = "array " + " ".join(map(str, toks))
-        self.all_regs = [r for regs in self.bank_regs for r in regs]
+        self.all_regs = [r for (_, regs) in self.bank_desc for r in regs]
+        assert len(self.all_regs) == len(self.ports)
         self.qual = [None]
         base = 1
         for p in self.ports:
@@ -657,27 +794,32 @@ class ArrayInst:
                 q[3] = base + 1
             self.qual += q
             base += p.nouts()
-        # ---- alphabet
         dmask = (1 << bw) - 1
         adrs = []
-        for (nm, csrs, mapaddr, rmap) in self.array.banks:
-            adrs += [(mapaddr << self.pbits) + a for a in range(min(len(rmap.simple_csrs), 1 << self.pbits))]
-        for (mapaddr, nw) in self.windows:
-            adrs += [(mapaddr << self.pbits) + a for a in range(min(nw, 1 << self.pbits))]
-        used = set(bank_addr.values()) | set(mem_addr.values())
-        free = next(a for a in range(64) if a not in used)
+        for (addr, regs) in self.bank_desc:
+            nw = len(ref_layout(regs, bw, ordering))
+            adrs += [(addr << self.pbits) + a for a in range(min(nw, 1 << self.pbits))]
+        for (addr, w, d, ro, init, page) in self.win_desc:
+            adrs += [(addr << self.pbits) + a for a in range(min(d * (-(-w // bw)), 1 << self.pbits))]
+        used = set(a for a, _ in self.bank_desc) | set(x[0] for x in self.win_desc)
+        free = next(a for a in range(1 << (self.aw - self.pbits)) if a not in used)
         adrs.append(free << self.pbits)
+        # words of a used page that are not populated, and the same word offsets in unmapped pages
+        for (addr, regs) in self.bank_desc[:2]:
+            nw = len(ref_layout(regs, bw, ordering))
+            if nw < (1 << self.pbits):
+                adrs.append((addr << self.pbits) + nw)
         self.adrs = adrs
         m0 = []
-        for a in adrs:
+        for a in (adrs if max_adrs is None else adrs[:max_adrs] + adrs[-2:]):
             m0.append((a, 0, 0, 0))
             m0.append((a, 1, 0, 0))
             for d in data_values:
                 m0.append((a, 0, 1, d & dmask))
-        if nmasters > 1:
-            m1 = m1_letters or [(0, 0, 0, 0), (adrs[0], 0, 1, data_values[-1] & dmask), (adrs[-2], 1, 0, 0)]
+        if self.nmasters > 1:
+            m1 = m1_letters or [(0, 0, 0, 0), (adrs[0], 0, 1, data_values[-1] & dmask), (adrs[-3], 1, 0, 0)]
             ml = [x + y for x in m0 for y in m1]
-            for _ in range(nmasters - 2):
+            for _ in range(self.nmasters - 2):
                 ml = [x + (0, 0, 0, 0) for x in ml]
         else:
             ml = m0
@@ -691,19 +833,25 @@ class ArrayInst:
         self.alphabet = [m + tuple(itertools.chain(*d)) for m in ml for d in devl]
         self.inputs = self.outputs = None
 
-    def apply(self, letter):
+    def _apply(self, letter):
         n = self.netlist
-        for mi, m in enumerate(self.masters):
+        for mi, group in enumerate(self.drive_buses):
             adr, re, we, dat = letter[4 * mi:4 * mi + 4]
-            n.set(m.adr, adr); n.set(m.re, re); n.set(m.we, we); n.set(m.dat_w, dat)
+            for m in group:
+                n.set(m.adr, adr); n.set(m.re, re); n.set(m.we, we); n.set(m.dat_w, dat)
         o = 4 * self.nmasters
         for k, p in enumerate(self.ports):
             p.drive(n, letter[o + 2 * k], letter[o + 2 * k + 1])
         n.settle()
 
-    def sample(self):
+    def _sample(self):
         n = self.netlist
-        d = [n.getu(m.dat_r) for m in self.masters]
+        d = []
+        for group in self.read_buses:
+            v = 0
+            for b in group:
+                v |= n.getu(b.dat_r)
+            d.append(v)
         outs = [d[0] if all(x == d[0] for x in d) else -1]
         for p in self.ports:
             outs += p.sample(n)
@@ -724,29 +872,161 @@ class ArrayInst:
             if mi != active and rng.random() < 0.9:
                 letter += [0, 0, 0, 0]
                 continue
-            adr = rng.choice(self.adrs) if rng.random() < 0.85 else rng.randrange(1 << self.aw)
+            x = rng.random()
+            if x < 0.75:
+                adr = rng.choice(self.adrs)
+            elif x < 0.90:
+                adr = rng.choice(self.adrs) ^ (1 << rng.randrange(self.aw))      # single-bit alias
+            else:
+                adr = rng.randrange(1 << self.aw)
             y = rng.random()
             re, we = (0, 0) if y < 0.15 else (1, 0) if y < 0.5 else (0, 1)
             letter += [adr, re, we, rng.choice((0, dmask, rng.getrandbits(self.bw), rng.getrandbits(self.bw)))]
         for r in self.all_regs:
             m = (1 << r.eff_size()) - 1
+            wide = r.eff_size() + (3 if rng.random() < 0.2 else 0)
             if r.kind == STORAGE:
-                letter += [1 if (r.wfd and rng.random() < 0.15) else 0, rng.getrandbits(r.eff_size()) if r.wfd else 0]
+                letter += [1 if (r.wfd and rng.random() < 0.15) else 0, rng.getrandbits(wide) if r.wfd else 0]
             else:
-                letter += [0, rng.choice((0, m, rng.getrandbits(r.eff_size())))]
+                letter += [0, rng.choice((0, m, rng.getrandbits(wide)))]
         return tuple(letter)
 
 
-class _Win:
-    """Geometry of one memory window, as SramMonitor needs it."""
+class ArrayInst(_ArrayBase):
+    """Real `CSRBankArray` over a source object with several CSR-bearing attributes, connected to one master
+    through `Interconnect` or to several through `InterconnectShared`.
+      periphs: list of (attr name, [Reg], [(width, depth, read_only, init)])   (attribute names sort = scan order)
+      bank_addr: attr name -> bank number;  mem_addr: (attr name, k-th memory) -> window number
+      style: "plain" (objects with get_csrs/get_memories) or "autocsr" (Modules with AutoCSR: the array calls
+             `get_csrs(sort=True)`, registers may carry fixed locations `n`, `child` registers sit in a sub-module)
+    The model is described from these parameters only (expected bank order, register order after placement, page
+    registers); the real array is used for nothing but port access."""
 
-    def __init__(self, bw, pbits, address, memory, read_only, page_bits):
-        self.bw, self.pbits, self.address = bw, pbits, address
-        self.width, self.depth = memory.width, memory.depth
-        self.cpm = -(-memory.width // bw)
-        self.read_only = read_only
-        self.init = list(memory.init or [])
-        self.page_bits = page_bits
+    def __init__(self, name, periphs, bank_addr, mem_addr, bw=8, ordering="big", paging=0x800, aw=14, nmasters=1,
+                 data_values=(0xA5A5A5A5A5, 0x5A5A5A5A5A), dev_values=(0x3C3C3C3C3C,), m1_letters=None,
+                 style="plain", child=0, max_adrs=None):
+        from migen import Memory
+        self.name, self.bw, self.aw, self.nmasters = name, bw, aw, nmasters
+        self.ordering = ordering
+        self.pbits = _log2(paging // 4)
+
+        class Src:
+            pass
+        src = Src()
+        mems_by_id = {}
+        built = {}
+        for pname, regs, mems in periphs:
+            if style == "autocsr":
+                mod, objs, mobjs = _make_auto_periph(pname, regs, mems, child)
+                for mi, m in enumerate(mobjs):
+                    mems_by_id[id(m)] = (pname, mi)
+                setattr(src, pname, mod)
+                built[pname] = (objs, mobjs)
+            else:
+                objs = [build_reg(r, r.name or "%s_r%d" % (pname, k)) for k, r in enumerate(regs)]
+                mobjs, mraw = [], []
+                for mi, (w, d, ro, init) in enumerate(mems):
+                    m = Memory(w, d, init=init, name="%s_mem%d" % (pname, mi))
+                    mems_by_id[id(m)] = (pname, mi)
+                    mobjs.append((ro, m) if ro else m)
+                    mraw.append(m)
+                setattr(src, pname, _Periph(objs, mobjs))
+                built[pname] = (objs, mraw)
+
+        def address_map(nm, memory):
+            if memory is None:
+                return bank_addr[nm]
+            return mem_addr[mems_by_id[id(memory)]]
+        self.array = _csr_bus.CSRBankArray(src, address_map, data_width=bw, address_width=aw, paging=paging,
+                                           ordering=ordering)
+        self.masters = [_csr_bus.Interface(data_width=bw, address_width=aw) for _ in range(nmasters)]
+        top = Module()
+        top.submodules += self.array
+        if nmasters == 1:
+            top.submodules += _csr_bus.Interconnect(self.masters[0], self.array.get_buses())
+        else:
+            top.submodules += _csr_bus.InterconnectShared(self.masters, self.array.get_buses())
+        self.netlist = Netlist(top)
+        self.drive_buses = [[m] for m in self.masters]
+        self.read_buses = [[m] for m in self.masters]
+        # ---- expected structure, from the parameters
+        sram_by_mem = {id(memory): mmap for (nm, memory, mapaddr, mmap) in self.array.srams}
+        self.bank_desc, self.win_desc, self.ports = [], [], []
+        for pname, regs, mems in sorted(periphs, key=lambda x: x[0]):
+            objs, mobjs = built[pname]
+            if style == "autocsr":
+                placed = ref_sort(regs)
+            else:
+                placed = list(regs)
+            obj_of = {id(r): o for r, o in zip(regs, objs)}
+            page_regs = []
+            for mi, (w, d, ro, init) in enumerate(mems):
+                ro_eff = ro if style == "plain" else False        # AutoCSR memories are always writable windows
+                pb = ref_page_bits(w, d, bw, paging)
+                page = None
+                if pb:
+                    pr = Reg(STORAGE, pb, name="%s_mem%d_page" % (pname, mi))
+                    mmap = sram_by_mem.get(id(mobjs[mi]))
+                    if mmap is None or mmap._page is None:
+                        raise InstanceError("instance %s: memory %s/%d needs a page register but the array built none" % (name, pname, mi))
+                    obj_of[id(pr)] = mmap._page
+                    page_regs.append(pr)
+                    page = (len(self.bank_desc), len(placed) + len(page_regs) - 1)
+                self.win_desc.append((mem_addr[(pname, mi)], w, d, ro_eff, list(init or []), page))
+            allregs = placed + page_regs
+            if allregs:
+                # reserved fillers are created by the real gatherer: fetch them from the real bank by position
+                real = next((csrs for (nm, csrs, mapaddr, rmap) in self.array.banks if nm == pname), None)
+                if real is None or len(real) != len(allregs):
+                    raise InstanceError("instance %s: bank %s has %s registers, %d expected" % (
+                        name, pname, None if real is None else len(real), len(allregs)))
+                for k, r in enumerate(allregs):
+                    o = obj_of.get(id(r))
+                    if o is None:
+                        o = real[k]                                  # a `reserved` CSR
+                    self.ports.append(RegPorts(r, o))
+                self.bank_desc.append((bank_addr[pname], allregs))
+        # windows in the order the array created them = order of the model's `srams`; the page link uses bank indexes
+        # computed above, window order = scan order (sorted names, memories in declaration order): same as win_desc
+        self._describe(data_values, dev_values, m1_letters, max_adrs)
+
+
+class SocArrayInst(_ArrayBase):
+    """The CSR bank array as a real SoC builds it: `SoCMini(...)` is finalized (`SoC.do_finalize` chooses paging,
+    ordering, data/address width, allocates the bank numbers and calls `CSRBankArray(self, address_map=...)`), then
+    the array's own logic is simulated alone and the harness plays the interconnect (drives every slave bus, ORs the
+    read data).  The cores' register declarations (Timer, SoCController, ...) are the inputs; bus width, paging and
+    ordering given to the model are the ones passed to the SoC constructor."""
+
+    def __init__(self, name, bw=8, paging=0x800, ordering="big", aw=14, data_values=(0xA5A5A5A5A5, 0x5A5A5A5A5A),
+                 dev_values=(0x3C3C3C3C3C,), max_adrs=None):
+        from litex.soc.integration.soc_core import SoCMini
+        from litex.build.sim.platform import SimPlatform
+        from litex.build.generic_platform import Pins
+        self.name, self.bw, self.aw, self.nmasters, self.ordering = name, bw, aw, 1, ordering
+        self.pbits = _log2(paging // 4)
+        plat = SimPlatform("SIM", [("sys_clk", 0, Pins(1)), ("sys_rst", 0, Pins(1))])
+        soc = SoCMini(plat, 1e6, csr_data_width=bw, csr_paging=paging, csr_ordering=ordering, csr_address_width=aw,
+                      with_timer=True, with_uart=False)
+        soc.finalize()
+        self.soc = soc
+        ba = soc.csr_bankarray
+        self.netlist = Netlist(ba._fragment)
+        buses = ba.get_buses()
+        self.drive_buses = [buses]
+        self.read_buses = [buses]
+        self.bank_desc, self.win_desc, self.ports = [], [], []
+        for pname in sorted(soc.csr.locs):
+            core = getattr(soc, pname, None)
+            if core is None or not hasattr(core, "get_csrs"):
+                continue
+            csrs = core.get_csrs(sort=True) if "sort" in core.get_csrs.__code__.co_varnames else core.get_csrs()
+            if not csrs:
+                continue
+            regs = [spec_of(c) for c in csrs]
+            self.bank_desc.append((soc.csr.locs[pname], regs))
+            self.ports += [RegPorts(r, c) for r, c in zip(regs, csrs)]
+        self._describe(data_values, dev_values, None, max_adrs)
 
 
 class ArrayMonitor:
@@ -759,22 +1039,22 @@ class ArrayMonitor:
         self.banks = []
         o = 1
         d = 4 * inst.nmasters
-        for (nm, csrs, mapaddr, rmap), regs in zip(inst.array.banks, inst.bank_regs):
+        for (addr, regs) in inst.bank_desc:
             nout = sum(4 + (len(r.fields) if r.kind == STORAGE else 0) for r in regs)
-            mon = RegFileMonitor(regs, inst.bw, inst.ordering, inst.pbits, mapaddr,
+            mon = RegFileMonitor(regs, inst.bw, inst.ordering, inst.pbits, addr,
                                  check_atomic=not (inst.ordering == "little" and any(
                                      r.kind == STORAGE and r.atomic and r.eff_size() > inst.bw for r in regs)))
             self.banks.append((mon, o, nout, d, len(regs)))
             o += nout
             d += 2 * len(regs)
         self.wins = []
-        for (nm, memory, mapaddr, mmap) in inst.array.srams:
-            port = list(memory.ports)[0]
-            pb = len(mmap._page.storage) if mmap._page is not None else 0
-            mon = SramMonitor(_Win(inst.bw, inst.pbits, mapaddr, memory, port.we is None, pb))
+        for (addr, w, dep, ro, init, page) in inst.win_desc:
+            mon = SramMonitor(_Win(inst.bw, inst.pbits, addr, w, dep, ro, init,
+                                   ref_page_bits(w, dep, inst.bw, 4 << inst.pbits)))
             page_out = None
-            if mmap._page is not None:
-                k = next(i for i, p in enumerate(inst.ports) if p.obj is mmap._page)
+            if page is not None:
+                bi, ri = page
+                k = sum(len(regs) for (_, regs) in inst.bank_desc[:bi]) + ri
                 page_out = 1 + sum(p.nouts() for p in inst.ports[:k])
             self.wins.append((mon, page_out))
 
@@ -805,3 +1085,15 @@ class ArrayMonitor:
             pv = outs[page_out] if page_out is not None else 0
             mon.observe(tuple(bus) + (pv,), [None], check_datr=False)
         return msg
+
+
+class _Win:
+    """Geometry of one memory window, as SramMonitor needs it (all from the parameters)."""
+
+    def __init__(self, bw, pbits, address, width, depth, read_only, init, page_bits):
+        self.bw, self.pbits, self.address = bw, pbits, address
+        self.width, self.depth = width, depth
+        self.cpm = -(-width // bw)
+        self.read_only = read_only
+        self.init = list(init or [])
+        self.page_bits = page_bits
